@@ -36,7 +36,7 @@ LEVEL = "exploration"
 HAS_CLOCK = False
 # thorough: every flat history of <= 4 steps (42 + 42^2 + 42^3 + 42^4 =
 # 3 187 590) and then 300 000 sampled histories of up to 6 steps
-BUDGET = {"quick": (20000, 240), "thorough": (3187590 + 300000, 2700)}
+BUDGET = {"quick": (30000, 240), "thorough": (3187590 + 300000, 2700)}
 RULE = (
     "A case is one load of a rendered history (tree of define/use/section/"
     "include steps over 3 names in mixed case, 15 value shapes incl. $other, "
@@ -82,7 +82,8 @@ SPELL = {"a": ["a", "A"], "b": ["B", "b"], "ab": ["aB", "AB", "ab", "Ab"]}
 # unusual names; the model decides which are legal (NBSP is left out: the
 # parser splits the directive argument on any Unicode white space)
 BAD_NAMES = ["1a", "a-b", "a.b", "é", "$a", "${B}", "$$a", "a$b", "aé", "b²",
-             "a١", "größe", "_", "a_1", "\u212a", "a\u212a"]
+             "a١", "größe", "_", "a_1", "\u212a", "a\u212a", "a(b)", "B(", "ab)",
+             "(a)", "a(b)c", "a)(", "a,b", "a;b", "a=b", "a:b", "a/b", "a+"]
 ENV_SET = "ZCSIM_E1"
 ENV_UNSET = "ZCSIM_E2"
 USE_STYLES = ["$%s", "${%s}", "p${%s}q", "$%s$%s", "$%s.x", "$%s-y",
@@ -350,7 +351,7 @@ def random_step(rng):
                 "style": rng.choice(USE_STYLES)}
     n = rng.choice(NAMES)
     name = spell(rng, n)
-    if rng.random() < 0.04:
+    if rng.random() < 0.07:
         name = rng.choice(BAD_NAMES)
     r = rng.random()
     if r < 0.4:
